@@ -8,6 +8,7 @@
 //! trusted: env: PaymentConstraints {2 fields} skeleton; BlindedHopFeatures opaque with external_body empty()/requires_unknown_bits_from() (unconstrained)
 //! trusted: env: struct UpdateAddHTLC{amount_msat,cltv_expiry}, ChannelConfig{3 fields}, PaymentRelay{3 fields} are field skeletons of the real structs; enum LocalHTLCFailureReason restricted to the 6 variants used; FundedChannel/ChannelContext self skeleton (R5) whose config()/prev_config() accessors are external_body returning the two stored configs
 //! trusted: R15 (deep slice): can_forward_htlc_to_outgoing_channel: the unit extracts its last two statements (minimum-amount test and the call of htlc_satisfies_config, which is checked against that function's proved contract) verbatim; the privacy / liveness pre-checks before them (all early Err returns) are dropped and not claimed; NextPacketDetails skeleton
+//! trusted: R15 (deep slice): claim_funds_internal: the expression computing total_fee_earned_msat inside the PaymentForwarded closure, verbatim
 //! trusted: R15 (deep slice): do_chain_event sweeps pending_intercepted_htlcs with a retain closure under a mutex; the unit extracts the closure's keep/fail-back test verbatim as a function of (htlc, height); the pushed failure and the log are dropped; PendingAddHTLCInfo/PendingHTLCInfo skeletons {outgoing_cltv_value}
 //! trusted: R15 (deep slice): do_best_block_updated times out AddHTLC entries of the holding cell in a retain closure; the unit extracts the limit and the keep/drop test verbatim as a function of (cltv_expiry, height)
 //! assume: intercepted forwards have outgoing_cltv_value >= HTLC_FAIL_BACK_BUFFER (they passed check_incoming_htlc_cltv); otherwise the u32 subtraction in the sweep underflows
@@ -265,6 +266,24 @@ pub struct HTLCOutputInCommitment { pub cltv_expiry: u32, pub offered: bool }
 //@with
     htlc.cltv_expiry < height + CLTV_CLAIM_BUFFER
 //@end
+// ---- what a completed forward earned (deep R15 slice of ChannelManager::claim_funds_internal) ----
+//@extract lightning/src/ln/channelmanager.rs :: impl ChannelManager :: fn claim_funds_internal
+//@slice R15
+    |htlc_claim_value_msat: Option<u64>| -> Option<events::Event> { let total_fee_earned_msat = $fee; debug_assert!
+//@with
+    fn forward_fee_earned(htlc_claim_value_msat: Option<u64>, forwarded_htlc_value_msat: u64) -> Option<u64> { $fee }
+//@ret r
+//@requires
+    // what forward admission established (internal_htlc_satisfies_config above): the amount claimed upstream covers the amount paid downstream
+    htlc_claim_value_msat is Some ==> htlc_claim_value_msat->Some_0 >= forwarded_htlc_value_msat,
+//@ensures P C02 the-fee-reported-for-a-forward-is-what-was-claimed-upstream-minus-what-was-paid-downstream
+    r == (if htlc_claim_value_msat is Some { Some((htlc_claim_value_msat->Some_0 - forwarded_htlc_value_msat) as u64) } else { None::<u64> }),
+//@mutant fee_reported_as_the_whole_claimed_amount
+    Some(claimed_htlc_value - forwarded_htlc_value_msat)
+//@with
+    Some(claimed_htlc_value)
+//@end
+
 // ---- when a held (intercepted) forward is given up (deep R15 slice of do_chain_event's sweep over pending_intercepted_htlcs) ----
 pub struct PendingHTLCInfo { pub outgoing_cltv_value: u32 }
 pub struct PendingAddHTLCInfo { pub forward_info: PendingHTLCInfo }
